@@ -113,6 +113,25 @@ You can provide input either as a file (as the first argument) or by piping logs
 				fmt.Fprintln(os.Stderr, "Error: When using Atlas parameters, --outputFile (-o) must be specified.")
 				os.Exit(1)
 			}
+			if atlasParamsSet && (atlasProjectId == "" || atlasClusterName == "") {
+				fmt.Fprintln(os.Stderr, "Error: When using Atlas parameters, both --atlasProjectId and --atlasClusterName must be specified.")
+				os.Exit(1)
+			}
+			// Resolve the Atlas API key pair before any side effect (output file, key file, network)
+			publicKey := atlasPublicKey
+			privateKey := atlasPrivateKey
+			if atlasParamsSet {
+				if publicKey == "" {
+					publicKey = os.Getenv("ATLAS_PUBLIC_KEY")
+				}
+				if privateKey == "" {
+					privateKey = os.Getenv("ATLAS_PRIVATE_KEY")
+				}
+				if publicKey == "" || privateKey == "" {
+					fmt.Fprintln(os.Stderr, "Error: Atlas public/private key not set. Please provide --atlasPublicKey and --atlasPrivateKey or set ATLAS_PUBLIC_KEY and ATLAS_PRIVATE_KEY environment variables.")
+					os.Exit(1)
+				}
+			}
 			if !atlasParamsSet && len(args) == 1 && stdinHasData {
 				fmt.Fprintln(os.Stderr, "Error: Cannot provide both a file and piped input. Please provide only one source.")
 				os.Exit(1)
@@ -180,18 +199,6 @@ You can provide input either as a file (as the first argument) or by piping logs
 
 			// --- Atlas mode ---
 			if atlasParamsSet {
-				publicKey := atlasPublicKey
-				privateKey := atlasPrivateKey
-				if publicKey == "" {
-					publicKey = os.Getenv("ATLAS_PUBLIC_KEY")
-				}
-				if privateKey == "" {
-					privateKey = os.Getenv("ATLAS_PRIVATE_KEY")
-				}
-				if publicKey == "" || privateKey == "" {
-					fmt.Fprintln(os.Stderr, "Error: Atlas public/private key not set. Please provide --atlasPublicKey and --atlasPrivateKey or set ATLAS_PUBLIC_KEY and ATLAS_PRIVATE_KEY environment variables.")
-					os.Exit(1)
-				}
 				client := NewAtlasClient(nil)
 				start, end := GetStartAndEndDates()
 				files, err := client.DownloadClusterLogs(cmd.Context(), publicKey, privateKey, atlasProjectId, atlasClusterName, start, end)
